@@ -245,6 +245,10 @@ def reindex_database(
     if num_of_updates == 0:
         c.zprint("NO ZORG FILES HAVE BEEN MODIFIED")
 
+    if cmd.paths:
+        # Only the given paths were looked at; every other page keeps the hash
+        # it was last indexed with.
+        file_to_hash = old_file_to_hash | file_to_hash
     _write_file_hash_to_disk(file_hash_path, file_to_hash)
     error_file_whitelist.write_text("\n".join(sorted(error_files)))
     session.commit()
@@ -478,6 +482,14 @@ def _update_zo_file(
     )
     zo_path.write_text("\n".join(zlines))
 
-    _write_file_hash_to_disk(
-        _get_file_hash_path(zdir), _get_file_hash_map(zdir)
+    # Only this file was rewritten (and it is already indexed with its new
+    # contents). Re-hashing every file here would mark pages that were edited
+    # but not reindexed yet as up to date.
+    file_hash_path = _get_file_hash_path(zdir)
+    file_to_hash: dict[str, str] = (
+        json.loads(file_hash_path.read_bytes())
+        if file_hash_path.exists()
+        else {}
     )
+    file_to_hash[c.strip_zdir(zdir, zo_path)] = _hash_file(zo_path)
+    _write_file_hash_to_disk(file_hash_path, file_to_hash)
